@@ -21,7 +21,7 @@ def build_real(inp):
     shape = tuple(inp["shape"])
     seg = None if inp.get("seg") is None else np.array(inp["seg"], dtype=np.int64).reshape(shape)
     g = nx.DiGraph()
-    for i in range(N):
+    for i in (reversed(range(N)) if inp.get("node_order") == "reversed" else range(N)):
         if inp["alive"][i]:
             d = {T: inp["t"][i], TID: inp["tid"][i], LID: inp["lid"][i]}
             if inp.get("multi_pos"):
